@@ -118,6 +118,10 @@ def main():
             r = detect(sid, a.tier)
             caught = any(x['rc'] == 1 for x in r.values())
             bad += not caught
+            mp = os.path.join(V, 'seeded', sid, 'meta.json')
+            meta = json.load(open(mp))
+            meta['detected'] = {p: {'rc': x['rc'], 'keys': x['keys'], 'tier': a.tier} for p, x in r.items()}
+            json.dump(meta, open(mp, 'w'), indent=1)
             print(('CAUGHT ' if caught else 'MISSED ') + sid + ' ' + json.dumps(r))
             sys.stdout.flush()
         sys.exit(1 if bad else 0)
